@@ -36,6 +36,9 @@ CHECKS = {
          "In every reachable node state all 256 bytes are probed, enumeration order/min/max/fan-out/path carried checked; the 4-slot and 16-slot search/insert-position primitives are compared with a scalar scan on exhaustive domains; tree-level single-byte closures probe all 256 keys through the trees' inlined lookups."),
  "C11": ("model_checking", "E1-HIST", E1_TECH, E1_NOTE,
          "After every transition the structural dump is compared with the canonical compressed radix tree rebuilt from the reference key set (descent, branch bytes, path lengths and inline bytes, fan-out vs capacity, slot bijection, reachable leaves == Size, history independence)."),
+ "C12": ("model_checking", "E1-PRODUCT", "explicit-state BFS to closure over interleaved histories of several real trees with the sync.Pool's behaviour as an enumerated environment choice",
+         "GOMAXPROCS(1), collector off inside a job (pool order then controlled through the verif drain/refill hooks, self-tested at job start); verdicts behavioural only; universes park one node per tree at a release/acquire threshold of each size class.",
+         "Product closure of 2 (thorough 3) trees of mixed kinds over the real sync.Pool with enumerated hand-out order and 'Get answers New()' deviations; after every transition every tree is compared with its own ideal map and canonical structure (emptied tree == new tree); from every new state a deterministic fill/drain epilogue drives every tree through all four size classes twice so that latent damage in recycled nodes becomes a wrong result."),
  "C13": ("model_checking", "E1-HIST", E1_TECH, E1_NOTE,
          "Closures on alpha[[]byte] and collation[[]byte] trees with every key argument passed in each buffer mode (exactly full, sub-slice of a live sentinel-framed array, one reused scanner buffer): after every call the whole backing array must equal its snapshot; buffers are then overwritten and the tree must still hold and return the inserted keys. Compound trees: the codec's output arena must stay untouched."),
  "C14": ("model_checking", "E1-HIST", E1_TECH, E1_NOTE,
@@ -48,7 +51,6 @@ CHECKS = {
 }
 
 PENDING = {
- "C12": "check under construction in this session (pool-model product closure, DESIGN.md §5/C12); not yet claimed",
  "C16": "check under construction in this session (statement-level schedule exploration, DESIGN.md §5/C16); not yet claimed",
  "C17": "check under construction in this session (heap probe over state x cycle pairs, DESIGN.md §5/C17); not yet claimed",
  "C18": "check under construction in this session (GC as explored environment event, DESIGN.md §5/C18); not yet claimed",
@@ -74,9 +76,10 @@ def main():
     engines = {}
     for pid, (level, engine, tech, note, text) in CHECKS.items():
         engines.setdefault(engine, []).append(pid)
-    paths = {"E1-HIST": "/verif/harness/hist", "E2-NODE": "/verif/harness/nodex", "E3-CODEC": "/verif/harness/codec", "E6-GEN": "/verif/harness/cmd/vcheck/c19.go",
+    paths = {"E1-HIST": "/verif/harness/hist", "E1-PRODUCT": "/verif/harness/hist/product.go", "E2-NODE": "/verif/harness/nodex", "E3-CODEC": "/verif/harness/codec", "E6-GEN": "/verif/harness/cmd/vcheck/c19.go",
              "E4-SCHED": "/verif/harness/sched", "E5-HEAP": "/verif/harness/hist"}
-    kinds = {"E1-HIST": "explicit-state breadth-first search to closure over Insert/Delete histories of real go-art trees; successor = replay of the shortest path on a fresh tree + one operation; per-property monitors",
+    kinds = {"E1-PRODUCT": "product closure of several real trees over the real sync.Pool with hook-controlled hand-out order",
+             "E1-HIST": "explicit-state breadth-first search to closure over Insert/Delete histories of real go-art trees; successor = replay of the shortest path on a fresh tree + one operation; per-property monitors",
              "E2-NODE": "explicit-state closure over a bare inner node + exhaustive primitive sweeps",
              "E3-CODEC": "exhaustive value enumeration in the oracle's total order",
              "E6-GEN": "runs the repository's generator and compares instantiations",
